@@ -171,7 +171,10 @@ func runC11(w *World, r *Report) {
 		r.Fail("C11.pre-before-post-after", "submit runs the pre-handler", submit.Pos(), "no pre-processor call in submit")
 	} else {
 		{
-			extra := extraGuards(pc.Block(), guardOnField(fPre), guardOnField(w.Field("compose", "task", "skipPreHandler")), guardErrNil, func(g guard) bool {
+			extra := extraGuards(pc.Block(), guardOnField(fPre), func(g guard) bool {
+				f := taskSkipFlag(w)
+				return f != nil && guardOnField(f)(g)
+			}, guardErrNil, func(g guard) bool {
 				// loop headers over the submitted tasks (range / index < len)
 				op, _, y, ok := asCmp(g.cond)
 				return ok && op == token.LSS && isLenOf(y, func(ssa.Value) bool { return true })
@@ -484,6 +487,8 @@ func runC11(w *World, r *Report) {
 
 	r.Rule("C11.prehandler-skipped-for-subgraphs-only", "the interrupt handler marks a task to skip its state pre-handler on resume only when the task's node is an interrupted sub-graph (whose pre-handler already ran and whose saved input is the prepared one); pending and rerun tasks are saved with their RAW input and get their pre-handler on resume (shared with C05.skip-prehandler)", 1)
 	skipMarkOnlySubGraphs(w, r, "C11.prehandler-skipped-for-subgraphs-only")
+
+	shareRule(w, r, "C11.interrupt-keeps-sibling-updates", "an interrupt in an eager run waits for the running siblings before the state is saved: their ProcessState updates and post-handlers are in the checkpoint", 3, "C05", "C05.wait-all-before-save")
 
 	r.Rule("C11.state-required", "addNode rejects nodes needing state when the graph has no state generator", 1)
 	addNode := w.Fn("compose", "graph.addNode")
